@@ -225,7 +225,7 @@ static rc::Gen<MusScore> genMus() {
         for(auto &r : raw) {
             int k = std::get<0>(r), a = std::get<1>(r), b = std::get<2>(r), dl = std::get<3>(r); MusEv e;
             static const int chs[] = {0, 1, 2, 15, 3, 15, 7, 14, 9, 10, 0, 1};
-            e.ch = chs[a % 12];
+            e.ch = (a % 5 < 3) ? (a / 5) % 16 : chs[a % 12]; // every MUS channel 0..15 is used; first-use order is whatever the score happens to be
             if(k < 40) { e.kind = 1; e.a = 30 + b % 70; e.has_vol = !vol_given[e.ch] || (b % 3 == 0); if(e.has_vol) { e.b = 1 + (b / 3) % 127; vol_given[e.ch] = true; } }
             else if(k < 60) { e.kind = 0; e.a = 30 + b % 70; }
             else if(k < 70) { e.kind = 2; e.a = b % 256; }
